@@ -167,7 +167,13 @@ impl Stream for RtrListener {
                     this.server_metrics,
                 ) {
                     Ok(stream) => Poll::Ready(Some(Ok(stream))),
-                    Err(_) => Poll::Pending,
+                    Err(_) => {
+                        // Setting up this connection failed. Nothing has
+                        // registered our waker, so ask to be polled again
+                        // right away to accept the next connection.
+                        ctx.waker().wake_by_ref();
+                        Poll::Pending
+                    }
                 }
             }
             Poll::Ready(Err(err)) => {
@@ -175,6 +181,8 @@ impl Stream for RtrListener {
                 *this.backoff = Some(Box::pin(
                     tokio::time::sleep(Duration::from_millis(100))
                 ));
+                // The new timer only registers our waker once it is polled.
+                ctx.waker().wake_by_ref();
                 Poll::Pending
             }
             Poll::Pending => Poll::Pending,
